@@ -805,10 +805,16 @@ impl<'a> crate::ranger::Store<SignedEntry> for StoreInstance<'a> {
             );
             tables.records_by_key.insert(key, ())?;
 
-            // insert into latest table
+            // insert into latest table, unless the author already has a newer entry
             let key = (&e.id().namespace().to_bytes(), &e.id().author().to_bytes());
             let value = (e.timestamp(), e.id().key());
-            tables.latest_per_author.insert(key, value)?;
+            let is_latest = match tables.latest_per_author.get(key)? {
+                Some(current) => current.value().0 <= e.timestamp(),
+                None => true,
+            };
+            if is_latest {
+                tables.latest_per_author.insert(key, value)?;
+            }
             Ok(())
         })
     }
